@@ -155,7 +155,7 @@ def build_cg(vsc, spec, enum_classes=None, name="CG", ctor_arg=None):
             fields[cp["name"] + "_v"] = (t[0], t[1])
         order.append(cp["name"] + "_v")
         if cp.get("iff"):
-            fields[cp["name"] + "_iff"] = ("u", 1)
+            fields[cp["name"] + "_iff"] = ("u", cp.get("iff_width") or 1)
             order.append(cp["name"] + "_iff")
     for cr in spec.get("crosses", []):
         if cr.get("iff"):
@@ -176,9 +176,13 @@ def build_cg(vsc, spec, enum_classes=None, name="CG", ctor_arg=None):
         for k, v in (spec.get("options") or {}).items():
             setattr(self.options, k, v)
         cps = {}
+        shared = {}
         for cp in spec["cps"]:
             kw = {}
-            if cp.get("bins"):
+            if cp.get("share_bins_of"):
+                # the very same bin specification objects as another coverpoint of this covergroup
+                kw["bins"] = shared[cp["share_bins_of"]]
+            elif cp.get("bins"):
                 bd = {}
                 for b in cp["bins"]:
                     if b[1] == "bin":
@@ -188,6 +192,7 @@ def build_cg(vsc, spec, enum_classes=None, name="CG", ctor_arg=None):
                     else:
                         bd[b[0]] = vsc.bin_array([] if b[2] is None else [b[2]], *_items_py(b[3]))
                 kw["bins"] = bd
+                shared[cp["name"]] = bd
             if cp.get("ignore"):
                 kw["ignore_bins"] = {n: vsc.bin(*_items_py(items)) for n, items in cp["ignore"]}
             if cp.get("illegal"):
